@@ -7,6 +7,7 @@
 #include <cassert> // PODResizeableArray.h uses assert without including it
 #include <tuple>   // FlatMap.h uses std::forward_as_tuple without including it
 
+#include "galois/CopyableTuple.h"
 #include "galois/FlatMap.h"
 #include "galois/LazyArray.h"
 #include "galois/LazyObject.h"
@@ -338,6 +339,11 @@ struct FlatMapRange {
     reg().reset();
     auto in = decode(idx);
     std::map<int, int> r(in.begin(), in.end());
+    // non-trivial: duplicate key or unsorted input
+    for (size_t i = 1; i < in.size(); ++i)
+      if (in[i].first <= in[i - 1].first)
+        sx::mark_nontrivial();
+    sx::outcome(sx::hash_str(fm_vkey(r)));
     {
       std::vector<std::pair<int, Elem>> src;
       for (auto& kv : in)
@@ -365,14 +371,6 @@ struct FlatMapRange {
                  (long)m.size() + (long)src.size());
     }
     check_live("flat_map", "destruction", 0);
-    // non-trivial: duplicate key or unsorted input
-    bool nt = false;
-    for (size_t i = 1; i < in.size(); ++i)
-      if (in[i].first <= in[i - 1].first)
-        nt = true;
-    if (nt)
-      sx::mark_nontrivial();
-    sx::outcome(sx::hash_str(fm_vkey(r)));
   }
 };
 
@@ -849,6 +847,45 @@ inline std::string opt_run(const std::vector<int>& hist) {
   check_live(C, "destruction", 0);
   sx::outcome(sx::hash_str(key));
   return key;
+}
+
+// ===========================================================================
+// Pair / TupleOfThree (CopyableTuple.h): hold what they were given, copy like
+// std::pair / std::tuple, members contiguous in declaration order.
+// ===========================================================================
+inline void tuple_run(uint64_t idx, bool) {
+  reg().reset();
+  int a = idx % 3, b = (idx / 3) % 3, c = (idx / 9) % 3;
+  {
+    galois::Pair<int, Elem> p(a, Elem(b));
+    std::pair<int, int> rp(a, b);
+    if (p.first != rp.first || p.second.v != rp.second || bad_obj(p.second))
+      sx::fail("Pair:members", "Pair(%d,%d) holds (%d,%d)", a, b, p.first,
+               p.second.v);
+    galois::Pair<int, Elem> q(p), d;
+    d = p;
+    if (q.second.v != b || d.second.v != b || d.first != a || q.first != a ||
+        bad_obj(q.second) || bad_obj(d.second) || bad_obj(p.second))
+      sx::fail("Pair:copy", "copy of Pair(%d,%d) differs", a, b);
+    galois::TupleOfThree<Elem, int, Elem> t(Elem(a), b, Elem(c));
+    galois::TupleOfThree<Elem, int, Elem> u(t);
+    if (t.first.v != a || t.second != b || t.third.v != c || u.first.v != a ||
+        u.second != b || u.third.v != c || bad_obj(t.first) ||
+        bad_obj(t.third) || bad_obj(u.first) || bad_obj(u.third))
+      sx::fail("TupleOfThree:members", "TupleOfThree(%d,%d,%d) differs", a, b,
+               c);
+    check_live("CopyableTuple", "construction and copies", 3 + 4);
+    galois::Pair<int, int> pi(a, b);
+    galois::TupleOfThree<int, int, int> ti(a, b, c);
+    if (sizeof(pi) != 2 * sizeof(int) || sizeof(ti) != 3 * sizeof(int) ||
+        (char*)&pi.second - (char*)&pi.first != (long)sizeof(int) ||
+        (char*)&ti.third - (char*)&ti.first != 2 * (long)sizeof(int))
+      sx::fail("CopyableTuple:layout", "members are not contiguous");
+  }
+  check_live("CopyableTuple", "destruction", 0);
+  if (a != b && b != c)
+    sx::mark_nontrivial(); // members distinguishable
+  sx::outcome(idx);
 }
 
 } // namespace c14
